@@ -25,7 +25,7 @@ REACH = [("yamlpath/processor.py", "_apply_change", "Processor._apply_change"),
          ("yamlpath/processor.py", "_update_node,recurse", "Processor._update_node / recurse"),
          ("yamlpath/common/nodes.py", "make_new_node,make_float_node", "Nodes.make_new_node")]
 SIZES = {"quick": 50000, "thorough": 800000}
-REQUIRED_COUNTERS = ["set_steps", "reload_checked", "set_steps_with_aliases"]
+REQUIRED_COUNTERS = ["set_steps", "reload_checked", "set_steps_with_aliases", "set_collector_steps", "set_inherited_key_steps"]
 
 SEEDS = [
     ("[1, 1, 2]", [("INDEX", 1)], 9), ("{a: b, b: x}", [("KEY", "a")], "z"),
@@ -37,7 +37,7 @@ SEEDS = [
     ("{a: 1.5}", [("KEY", "a")], 100.0), ("{a: &A1 true, b: *A1}", [("KEY", "a")], "zz"),
     ("{a: [&A x, y], b: [*A, x]}", [("KEY", "a"), ("INDEX", 0)], 7),
     ("[{a: &A2 'true'}, [{a: ab, b: *A2}]]", [("SEARCH", True, "=~", "b", "1"), ("KEY", "a")], 100.0),
-    ("{l: [a, b, c, d, e]}", [("KEY", "l"), ("SLICE", 1, 3)], "Z"),
+    ("{l: [a, b, c, d, e]}", [("KEY", "l"), ("SLICE", 1, 3)], "Z"), ("{b: &b {x: 1}, d: {<<: *b, y: 2}}", [("KEY", "d"), ("KEY", "x")], "Z"),
     ("{d: &D {r: 2.5, n: x}, s: {<<: *D, p: 8080}}", [("KEY", "d"), ("KEY", "r")], 0.75),
     ("{d: &D {r: 'q', n: x}, s: {<<: *D, p: 8080}, t: [{<<: *D}]}", [("KEY", "d"), ("KEY", "r")], "zz"),
     ("{d: &D {r: 2.5, n: x}, s: {<<: *D, p: 8080}}", [("KEY", "s"), ("KEY", "p")], 1),
@@ -64,6 +64,70 @@ def path_to_random_scalar(rng, data):
     return segs
 
 
+def scalar_lists(data):
+    """(segs, loc, list) for lists of >= 3 un-anchored scalars reachable by plain keys / indexes."""
+    out = []
+
+    def walk(n, segs, loc):
+        if isinstance(n, dict):
+            for i, (k, v) in enumerate(yp.own_items(n)):
+                if isinstance(k, str) and k.isalnum() and not k.lstrip("-").isdigit():
+                    walk(v, segs + [("KEY", k)], loc + (i,))
+        elif isinstance(n, list) and not yp.is_set(n):
+            if len(n) >= 3 and all(not yp.is_container(e) and e is not None and yp.anchor_of(e) is None for e in n) and segs:
+                out.append((segs, loc, n))
+            for i, e in enumerate(n):
+                walk(e, segs + [("INDEX", i)], loc + (i,))
+    walk(data, [], ())
+    return out
+
+
+def step_set_collector(ctx, rng, data, text, value, hist):
+    """A set through a Collector: (P[i:j]) or (P[i])+(P[k]) over a list of scalars; exactly those elements change."""
+    from vf.core.yp import Processor, LOG, YAMLPathException
+    from vf.model import edits as E
+    cands = scalar_lists(data)
+    if not cands or value is None:
+        return False
+    segs, loc, lst = rng.choice(cands)
+    base = gp.render(segs, "/")
+    n = len(lst)
+    if rng.random() < 0.5:
+        i = rng.randrange(0, n - 1)
+        j = rng.randrange(i + 2, n + 1)          # a genuine slice (at least two elements)
+        path, idxs = "(%s[%d:%d])" % (base, i, j), list(range(i, j))
+    else:
+        idxs = rng.sample(range(n), 2)
+        path = "+".join("(%s[%d])" % (base, i) for i in idxs)
+    kw = {}
+    if rng.random() < 0.3:
+        # an explicit value format must reach every member: the text 5, single-quoted, stays a string
+        from yamlpath.enums import YAMLValueFormats
+        value, kw = rng.choice(["5", "true", "1.5"]), {"value_format": YAMLValueFormats.SQUOTE}
+        ctx.count("set_collector_steps_with_format")
+    img0 = E.image(data)
+    expected = E.apply_set(img0, [loc + (i,) for i in sorted(set(idxs))], value)
+    case = {"doc": text, "path": path, "segs": None, "value": repr(value), "history": list(hist), "state_before": yp.dump(data) if hist else None,
+            "value_format": "squote" if kw else None}
+    ctx.evaluations += 1
+    ctx.count("set_steps")
+    ctx.count("set_collector_steps")
+    ctx.mark_nontrivial([text, path, repr(value), len(hist)])
+    try:
+        Processor(LOG, data).set_value(path, value, mustexist=True, **kw)
+    except YAMLPathException as e:
+        ctx.violation("set/collector/refused/%s" % type(e).__name__, {"case": case, "summary": str(e)[:150]})
+        return True
+    except Exception as e:
+        ctx.violation("set/collector/crash/%s@%s" % (type(e).__name__, ES.where(e)), {"case": case, "summary": repr(e)[:150]})
+        return True
+    actual = E.image(data)
+    if actual != expected:
+        ctx.violation("set/collector/" + ES.classify_set_diff(None, img0, expected, actual, [loc + (i,) for i in idxs], value), {
+            "case": case, "summary": "differs from model at %r" % (E.diff(expected, actual)[:3],)})
+    return True
+
+
 def run_history(ctx, rng, text, data, nsteps):
     hist = []
     for step in range(nsteps):
@@ -77,7 +141,11 @@ def run_history(ctx, rng, text, data, nsteps):
             if not isinstance(py_retype(value), str) or value.lower() in ("null", "~", "yes", "no", "on", "off"):
                 value = "zz"      # a str spelled like another type is re-typed by set_value: not judged here
         done = False
-        if x < 0.7:
+        if x < 0.06:
+            if step_set_collector(ctx, rng, data, text, value, hist):
+                hist.append(["set-through-collector", repr(value)])
+                done = True
+        elif x < 0.7:
             for _ in range(6):
                 segs = path_to_random_scalar(rng, data) if rng.random() < 0.5 else None
                 if segs is None:
